@@ -168,15 +168,15 @@ func childLsp(data []byte) string {
 // ---------------------------------------------------------------------------------------------
 
 type lspGen struct {
-	r     *Rng
-	id    int
-	docs  map[string]bool
-	ver   int
+	r    *Rng
+	id   int
+	docs map[string]bool
+	ver  int
 	// how the client numbers its versions in this history: 1-2 increasing, 3 restarting now and then, 4 arbitrary,
 	// 5 decreasing, 6 sometimes omitted (0) — the mirror is defined by the sequence of changes, not by their numbers
 	verMode int
 	texts   []string
-	cur   map[string]string // the text last sent in full for a URI ("" when unknown)
+	cur     map[string]string // the text last sent in full for a URI ("" when unknown)
 }
 
 func jstr(s string) string { b, _ := json.Marshal(s); return string(b) }
@@ -295,6 +295,21 @@ func (g *lspGen) step() lspStep {
 		}
 		return lspStep{Body: fmt.Sprintf(`{"jsonrpc":"2.0","id":%s,"method":%s,"params":%s}`, id, jstr(m), params), ID: id, URI: uri, Expect: "response"}
 	case k < 17: // notification of some kind
+		if g.r.Chance(45) {
+			// a notification about a request: the id of any earlier request (answered with a result or with an error),
+			// an id never used, or an id of another JSON type — a notification is never answered, and no id is answered twice
+			id := strconv.Itoa(g.id + 50)
+			if g.id > 0 && g.r.Chance(80) {
+				id = strconv.Itoa(1 + g.r.Intn(g.id))
+				if g.r.Chance(30) {
+					id = jstr("s" + id)
+				}
+			} else if g.r.Chance(30) {
+				id = g.r.Pick([]string{`null`, `"x"`, `1.5`, `[1]`, `{}`, `true`})
+			}
+			m := g.r.Pick([]string{"$/cancelRequest", "$/cancelRequest", "$/cancelRequest", "$/progress", "$/setTrace", "$/logTrace"})
+			return lspStep{Body: fmt.Sprintf(`{"jsonrpc":"2.0","method":%s,"params":{"id":%s,"token":%s,"value":"off"}}`, jstr(m), id, id), URI: uri, Expect: "none"}
+		}
 		m := g.r.Pick([]string{"initialized", "textDocument/didSave", "$/cancelRequest", "unknown/notification", "workspace/didChangeConfiguration"})
 		return lspStep{Body: fmt.Sprintf(`{"jsonrpc":"2.0","method":%s,"params":{"textDocument":{"uri":%s}}}`, jstr(m), jstr(uri)), URI: uri, Expect: "none"}
 	case k < 18: // JSON with a wrongly typed envelope but an id
